@@ -16,7 +16,7 @@ from fiddle._src.experimental import auto_config
 from harness import common, l2, c02
 from harness.common import Failure, Result, Stream, g_list, g_pair, g_N, g_nat
 
-COQ_TARGETS = ["theories/C11Check.vo", "theories/Anchors.vo"]
+COQ_TARGETS = ["theories/C11Check.vo", "theories/AnchorsBuild.vo"]
 TRUSTED_BASE = ["the AST rewrite of auto_config is exercised through the real decorator on generated source "
                 "files; the Coq model covers straight-line programs (calls with positional / keyword arguments, "
                 "locals, list / tuple / dict literals, functools.partial); *splat, **splat, nested auto_config "
